@@ -1757,7 +1757,13 @@ fn aggregate_scalar_simd(
         }
         AggregateFunction::BoolAnd => {
             if let Some(a) = input.as_any().downcast_ref::<BooleanArray>() {
-                let result = a.iter().flatten().all(|v| v);
+                // over no non-NULL input the answer is NULL, as on every other
+                // aggregation path (`all` of nothing is true)
+                let result = if a.null_count() == a.len() {
+                    None
+                } else {
+                    Some(a.iter().flatten().all(|v| v))
+                };
                 Arc::new(BooleanArray::from(vec![result]))
             } else {
                 return Err(QueryError::Type(
@@ -1767,7 +1773,12 @@ fn aggregate_scalar_simd(
         }
         AggregateFunction::BoolOr => {
             if let Some(a) = input.as_any().downcast_ref::<BooleanArray>() {
-                let result = a.iter().flatten().any(|v| v);
+                // NULL over no non-NULL input (`any` of nothing is false)
+                let result = if a.null_count() == a.len() {
+                    None
+                } else {
+                    Some(a.iter().flatten().any(|v| v))
+                };
                 Arc::new(BooleanArray::from(vec![result]))
             } else {
                 return Err(QueryError::Type("BOOL_OR requires boolean argument".into()));
